@@ -27,6 +27,8 @@ META = {
 META['explanation'] += ' ' + 'R1: both extracted layouts against sa/specs/tls.json, length fields computed from the written data, attribute names of spec items (a named position that is read and dropped, or composed as a constant, is a finding). R5: variant lists - every class but the last can decline. R6: explicit rejections against the reviewed table. R7: the shared flag / timestamp primitives tabulated (gmt_unix_time, SCT timestamps incl. values beyond 2^32). R8: the two extension dispatch tables evaluated; a type whose body differs between client and server hello (sent_by in sa/specs/tls.json) goes to the structure of the table\'s own side.'
 
 META['explanation'] += ' ' + 'R9: SCSV fold / unfold tabulated, with and without a renegotiation_info extension (shared with C05.R3).'
+
+META['explanation'] += ' ' + 'R10: what the composer hands to a primitive is the stored attribute - no constant, no clamp (shared with C01.R2).'
 MODULES = {'cryptoparser.tls.record', 'cryptoparser.tls.subprotocol', 'cryptoparser.tls.extension', 'cryptoparser.tls.version',
            'cryptoparser.tls.grease', 'cryptoparser.common.x509'}
 HERE = os.path.dirname(os.path.dirname(os.path.abspath(__file__)))
